@@ -263,8 +263,13 @@ var allEvents = []string{"pay1", "pay3", "pay2same", "spendOldest", "spendNewest
 var configEvents = []string{"setmin:0", "setmin:999", "setmin:1000", "setmin:1001", "setmin:100000", "setmin:100001",
 	"setmap:1", "setmap:3", "setmap:5"}
 
-// event alphabet of the configuration exploration
+// event alphabet of the configuration exploration (thorough tier)
 var configMenu = append([]string{"pay1", "pay3", "pay2same", "spendOldest", "spendAll", "reorgEmpty", "disable", "enable"}, configEvents...)
+
+// reduced alphabet for the quick tier: pay3 alone creates outputs of 999, 1000 and 150000,
+// which the thresholds 0 / 999 / 1000 / 1001 / 100001 all tell apart
+var configMenuQuick = []string{"pay3", "spendOldest", "spendAll", "reorgEmpty", "disable", "enable",
+	"setmin:0", "setmin:999", "setmin:1000", "setmin:1001", "setmin:100001", "setmap:1", "setmap:3", "setmap:5"}
 
 // ---------------------------------------------------------------- worker
 
@@ -1383,7 +1388,7 @@ func main() {
 	deep := map[string]bool{"P2WSH": true}
 	r.Budget = 150 * time.Second
 	if r.Thorough() {
-		deepDepth, shallowDepth, configDepth = 6, 5, 7
+		deepDepth, shallowDepth, configDepth = 6, 5, 6
 		deep = map[string]bool{"P2WSH": true, "P2PKH": true}
 		r.Budget = 25 * time.Minute
 	}
@@ -1415,7 +1420,11 @@ func main() {
 		wg.Add(1)
 		go func() {
 			defer wg.Done()
-			x.bfs(run{name: "config/P2PKH", focus: 0, menu: configMenu, depth: configDepth})
+			m := configMenuQuick
+			if r.Thorough() {
+				m = configMenu
+			}
+			x.bfs(run{name: "config/P2PKH", focus: 0, menu: m, depth: configDepth})
 		}()
 	}
 	wg.Wait()
@@ -1444,11 +1453,11 @@ func main() {
 		"prefix_dirs_rebuilt":               x.rebuilt,
 		"worker_cpu_s":                      float64(atomic.LoadInt64(&workerCPU)/1e7) / 100,
 		"samples":                           x.samples.L,
-		"rule": "BFS over event histories per focus address type (P2PKH, P2SH, P2WPKH, P2WSH, P2TR, non-standard; all other types present as static background outputs); every history runs in a fresh worker process on a copy of a 105-block chain; " +
+		"rule": "BFS over event histories per focus address type (P2PKH, P2SH, P2WPKH, P2WSH, P2TR, non-standard; all other types present as static background outputs) plus one configuration exploration (config/P2PKH: block/reorg events combined with setmin:<v> / setmap:<v> while the index is off, then LoadBalancesFromUtxo over the populated set; oracle = projection under the minimum in force); every history runs in a fresh worker process on a copy of a 105-block chain; " +
 			"oracle after every delivered block / wallet switch for every address of the alphabet; state key = (index on/off, snapshot saved for tip, observed list/map representation, X's outputs in creation order with age class/tx index/vout/value, X-outputs spent by the two topmost blocks); " +
 			"type-symmetry reduction: full depth for the deep focus types, reduced depth for the others (per_focus.depth_target)",
 	}, []string{
-		"UseMapCnt=3 (list->map at the third output), MinValue=1000 with outputs of 999/1000",
+		"UseMapCnt=3 (list->map at the third output), MinValue=1000 with outputs of 999/1000 at start; configuration events change MinValue to 0/999/1000/1001/100000/100001 and UseMapCnt to 1/3/5 only while the index is off (the documented off / change / on sequence); the value in force is the one configured when the index was last switched on",
 		"spends are really valid: P2SH/P2WSH of OP_1, P2PKH/P2WPKH/P2TR signed with gocoin's own signer (signatures are not judged here); blocks are delivered untrusted through CheckBlock+AcceptBlock",
 		"the projection is computed from the decoded UnspentDB.HashMap with the harness's own script classifier; the node's UTXO set is additionally required to equal the reference replay (else harness error)",
 		"representation (list/map) is read with reflect from the unexported field unspMap; it only enters the state key",
